@@ -42,6 +42,7 @@ def showVal : Val → String
   | .provider => "provider"
   | .zero => "nil"
   | .unit => "unit"
+  | .absent => "absent"
 
 def showOwner (o : Nat) : String := if o == providerOwner then "P" else s!"s{o}"
 
